@@ -18,7 +18,7 @@ from .. import AnalysisError, anf
 from ..anf import Rat, sym
 from ..guards import (G, TRUE, FALSE, g_and, g_not, g_or, g_equiv, g_implies, g_sat, compare, canon_sign, OPS, count_true)
 from ..gvn import Frame, Obj, PW, Vec, cases_of, veq, mk_pw, Unsupported
-from .common import RuleCtx, _short, locate_loop, stored_names, range_args, sign_set_name, returned_names
+from .common import section, RuleCtx, _short, locate_loop, stored_names, range_args, sign_set_name, returned_names
 
 C = Rat.const
 
@@ -175,8 +175,8 @@ def run(ctx):
     res.rule("W1", "running-minimum automaton: first kept; keep iff sign(h - h_min) in {-,0}; h_min <- h exactly on keep; h = points[knees[i]].y")
     res.rule("W2", "filter/selector evaluate the same IoU of rect((p0.x,p2.y),p1) and rect(p0,p2) under the same interior test; keep on p < t resp. p >= t; filter keeps end knees; keep-guards partition")
     res.rule("W3", "every emitted value is knees[i] of the current position; at most one per position; ascending positions")
-    _worst(rc)
-    _corners(rc)
+    section(rc, _worst)
+    section(rc, _corners)
     res.assumptions += ["knees ascending valid indices", "real-number reading of the IoU"]
     res.not_decided += ["idempotence is a corollary of W1 / W2 (the predicate depends on points and the knee only), not separately checked"]
     from .common import hidden_state as _hidden_state
